@@ -26,6 +26,14 @@ NEEDS = {
  "C16-b": ("C16", "flat-XOR hd=4, three missing data fragments none of which is singly connected: decode_three_data no longer frees its scratch parity buffer on success"),
  "C18-b": ("C18", "two threads in instance_create at once: descriptor allocated before the registry lock is taken -> duplicate descriptors"),
  "C19-b": ("C19", "ISA-L adapters, m >= 3, at least one data and two parity fragments missing, reconstruct of the 2nd or later missing parity (stale d_idx_unavail in get_inverse_rows)"),
+ "C03-c": ("C03", "rs_vand shapes with m > k and more than k (at most m) erasures: builtin reconstruct bails out on 'num_missing > k', the adapter ignores its -1, a zero payload under a fresh valid header is returned"),
+ "C07-c": ("C07", "metadata CRC flavour test rewritten in positive form without swapping the branches: the historical CRC is written whenever the legacy switch is NOT set (readers accept both, only a byte-level comparison sees it)"),
+ "C09-c": ("C09", "reconstruct: 'break' instead of 'goto out' after a bad header: a fragment with host magic but failing validation is consumed"),
+ "C10-c": ("C10", "reconstruct passes (set_chksum, ct) in swapped order to add_fragment_metadata: with ct=CRC32 the rebuilt fragment gets type NONE and no payload CRC"),
+ "C12-c": ("C12", "get_libec_version accepts opposite-endian magic: a consistently byte-swapped fragment validates as good"),
+ "C13-c": ("C13", "init_xor_hd_code hd=4 shape check merged: (5,6,4) accepted with NULL tables, first use crashes"),
+ "C14-c": ("C14", "alloc_desc skips the in-use scan unless the counter wrapped in THIS call: create, create, destroy(first), counter at INT_MAX, create, create -> live descriptor reissued"),
+ "C17-c": ("C17", "reconstruct: segment pointer arrays freed early on the success path only: a failing back-end reconstruct leaks them"),
  "C20-a": ("C20", "force_metadata_checks with erasures AND corruption together: 'valid < k' replaced by 'invalid > m'"),
 }
 def main():
